@@ -1199,7 +1199,16 @@ fn designator_to_asg(
     match get_ast_designator_expression(designator) {
         Some(synast::Expr::Literal(ref literal)) => {
             match literal.kind() {
-                synast::LiteralKind::IntNumber(int_num) => Some(int_num.value().unwrap() as u32),
+                synast::LiteralKind::IntNumber(int_num) => {
+                    // The width must be representable; never truncate it silently.
+                    match int_num.value().map(u32::try_from) {
+                        Some(Ok(width)) => Some(width),
+                        _ => {
+                            context.insert_error(InvalidDesignatorError, literal);
+                            None
+                        }
+                    }
+                }
                 _ => {
                     // FIXME: This error should be done when validating syntax. Before the semantic analysis
                     context.insert_error(ConstIntegerError, literal);
@@ -1210,11 +1219,15 @@ fn designator_to_asg(
         }
         Some(synast::Expr::Identifier(identifier)) => {
             let (sym, typ) = lookup_identifier(&identifier, context);
+            // An undeclared identifier has already been reported by the lookup.
+            let Ok(sym) = sym else {
+                return None;
+            };
             if typ.is_const() {
-                let const_value = context.get_const_value(sym.unwrap());
-                let width = match u32::try_from(const_value.unwrap()) {
-                    Ok(width) => width,
-                    Err(_) => {
+                // A const symbol without a recorded integer value is not a valid designator.
+                let width = match context.get_const_value(sym).map(u32::try_from) {
+                    Some(Ok(width)) => width,
+                    _ => {
                         context.insert_error(InvalidDesignatorError, &identifier);
                         // It's not clear what value to substitute for the width if we don't have a valid one.
                         // We choose zero.
@@ -1266,7 +1279,8 @@ fn classical_declaration_statement_to_asg_stmt(
         // Also literals are probably treated differently.
         // Is this in the spec, or somewhat up to the implementation?
         if types::equal_up_to_constness(&lhs_type, init_type) {
-            return asg::DeclareClassical::new(symbol_id, Some(initializer)).to_stmt();
+            // Go through the helper so that the value of a `const` is recorded as well.
+            return declare_classical_helper(symbol_id, Some(initializer), context);
         }
         // From this point, we need to cast, if possible.
         // So, we either cast, or record an error saying types are incompatible.
@@ -1308,8 +1322,11 @@ fn declare_classical_helper(
     context: &mut Context,
 ) -> asg::Stmt {
     if let Some(initializer) = &initializer {
-        if initializer.get_type().is_const() {
-            context.insert_const_value(symbol_id.clone().unwrap(), initializer.clone());
+        // `symbol_id` is an `Err` for a redeclaration, which has been reported already.
+        if let Ok(id) = &symbol_id {
+            if initializer.get_type().is_const() {
+                context.insert_const_value(id.clone(), initializer.clone());
+            }
         }
     }
     asg::DeclareClassical::new(symbol_id, initializer).to_stmt()
